@@ -17,15 +17,17 @@ package syncer
 //@   let pad = ite(it.HeaderPaddingBlock, 1, 0)
 //@   ensures ok: err == nil
 //@   ensures is_buf: sameSlice(val, it.buf)
+//@   ensures buf_private: sameArray(val, old(it.buf)) || fresh(val)
 //@   ensures count!: hdrNE(val) == pad
+//@   ensures length: len(val) == 24 + 8*pad + ite(effDel, 0, len(entryVal))
 //@   ensures wf: wfHeader(val)
 //@   ensures txn: hdrTxn(val) == uint64(it.TxnID)
 //@   ensures ts: hdrTS(val) == ite(ts != 0, uint64(ts), uint64(it.DefaultTimestampNano))
 //@   ensures flags: hdrFlags(val) == uint8(flags) | ite(effDel, uint8(1), uint8(0))
 //@   ensures reserved: hdrReservedZero(val)
-//@   ensures padding_zero: it.HeaderPaddingBlock ==> forall(i, 24, 32, val[i] == 0)
-//@   ensures deleted_empty: effDel ==> len(val) == 24 + 8*pad
-//@   ensures value: !effDel ==> seqEqOld(val[24+8*pad:], entryVal)
+//@   ensures padding_zero: it.HeaderPaddingBlock ==> hdrPaddingZero(val)
+//@   ensures deleted_empty: effDel ==> len(val) == 24 + 8*pad && seqLen(appSeq(val)) == 0
+//@   ensures value: !effDel ==> appSeq(val) == old(seqof(entryVal))
 //@   ensures v1_empty_is_deleted: len(entryVal) == 0 && it.FormatVersion < 2 ==> hdrFlags(val) & 1 != 0
 
 //@ func (it *NativeIterator) logDebugValue
@@ -43,15 +45,15 @@ package syncer
 //@   let stale = in_delflag && in_ts < uint64(it.DeletedCutoff)
 //@   ensures err_iff_bad_old: iff(err != nil, len(oldval) > 0 && !wfHeader(oldval))
 //@   ensures wf_or_old: err == nil ==> len(val) == 0 || sameSlice(val, oldval) || (wfHeader(val) && hdrTxn(val) == uint64(it.TxnID) && hdrFlags(val) &^ 1 == 0 && hdrReservedZero(val))
-//@   ensures deleted_implies_empty: err == nil && len(val) > 0 && !sameSlice(val, oldval) && hdrFlags(val) & 1 != 0 ==> len(appVal(val)) == 0
+//@   ensures deleted_implies_empty: err == nil && len(val) > 0 && !sameSlice(val, oldval) && hdrFlags(val) & 1 != 0 ==> seqLen(appSeq(val)) == 0
 //@   ensures stale_marker_dropped: len(oldval) == 0 && stale ==> len(val) == 0
-//@   ensures add: len(oldval) == 0 && !stale ==> wfHeader(val) && hdrTS(val) == eff_ts && iff(hdrFlags(val) & 1 != 0, in_del) && (in_del ==> len(appVal(val)) == 0) && (!in_del ==> seqEqOld(appVal(val), it.curKV.Value))
-//@   ensures newer_wins: wfHeader(oldval) && in_ts != 0 && in_ts > hdrTS(oldval) ==> wfHeader(val) && hdrTS(val) == in_ts && iff(hdrFlags(val) & 1 != 0, in_del) && (in_del ==> len(appVal(val)) == 0) && (!in_del ==> seqEqOld(appVal(val), it.curKV.Value))
+//@   ensures add: len(oldval) == 0 && !stale ==> wfHeader(val) && hdrTS(val) == eff_ts && iff(hdrFlags(val) & 1 != 0, in_del) && (in_del ==> seqLen(appSeq(val)) == 0) && (!in_del ==> appSeq(val) == old(seqof(it.curKV.Value)))
+//@   ensures newer_wins: wfHeader(oldval) && in_ts != 0 && in_ts > hdrTS(oldval) ==> wfHeader(val) && hdrTS(val) == in_ts && iff(hdrFlags(val) & 1 != 0, in_del) && (in_del ==> seqLen(appSeq(val)) == 0) && (!in_del ==> appSeq(val) == old(seqof(it.curKV.Value)))
 //@   ensures older_loses: wfHeader(oldval) && in_ts != 0 && in_ts < hdrTS(oldval) ==> sameSlice(val, oldval)
 //@   ensures ts_monotone: wfHeader(oldval) && err == nil ==> len(val) > 0 && wfHeader(val) && hdrTS(val) >= hdrTS(oldval)
-//@   ensures untouched: err == nil && len(oldval) > 0 && hdrTS(val) == hdrTS(oldval) && hdrFlags(val) & 1 == hdrFlags(oldval) & 1 && seqEq(appVal(val), appVal(oldval)) ==> sameSlice(val, oldval)
-//@   ensures capture_unchanged: in_ts == 0 && wfHeader(oldval) && seqEq(appVal(oldval), it.curKV.Value) ==> sameSlice(val, oldval)
-//@   ensures capture_changed: in_ts == 0 && wfHeader(oldval) && !seqEq(appVal(oldval), it.curKV.Value) && uint64(it.DefaultTimestampNano) > hdrTS(oldval) ==> wfHeader(val) && hdrTS(val) == uint64(it.DefaultTimestampNano) && iff(hdrFlags(val) & 1 != 0, in_del) && (!in_del ==> seqEqOld(appVal(val), it.curKV.Value))
+//@   ensures untouched: err == nil && len(oldval) > 0 && hdrTS(val) == hdrTS(oldval) && hdrFlags(val) & 1 == hdrFlags(oldval) & 1 && appSeq(val) == appSeq(oldval) ==> sameSlice(val, oldval)
+//@   ensures capture_unchanged: in_ts == 0 && wfHeader(oldval) && appSeq(oldval) == seqof(it.curKV.Value) ==> sameSlice(val, oldval)
+//@   ensures capture_changed: in_ts == 0 && wfHeader(oldval) && appSeq(oldval) != seqof(it.curKV.Value) && uint64(it.DefaultTimestampNano) > hdrTS(oldval) ==> wfHeader(val) && hdrTS(val) == uint64(it.DefaultTimestampNano) && iff(hdrFlags(val) & 1 != 0, in_del) && (!in_del ==> appSeq(val) == old(seqof(it.curKV.Value)))
 
 //@ func (it *NativeIterator) Clean
 //@   requires buf_old: disjoint(it.buf, oldval)
@@ -59,7 +61,7 @@ package syncer
 //@   modifies it.buf, bytes(it.buf)
 //@   ensures err_iff: iff(err != nil, !wfHeader(oldval))
 //@   ensures already_deleted: err == nil && hdrFlags(oldval) & 1 != 0 ==> sameSlice(val, oldval)
-//@   ensures marker: err == nil && hdrFlags(oldval) & 1 == 0 ==> wfHeader(val) && hdrFlags(val) == 1 && len(appVal(val)) == 0 && hdrTS(val) == uint64(it.DefaultTimestampNano) && hdrTxn(val) == uint64(it.TxnID)
+//@   ensures marker: err == nil && hdrFlags(oldval) & 1 == 0 ==> wfHeader(val) && hdrFlags(val) == 1 && seqLen(appSeq(val)) == 0 && hdrTS(val) == uint64(it.DefaultTimestampNano) && hdrTxn(val) == uint64(it.TxnID)
 
 //@ func (it *PlainIterator) Merge
 //@   nopanic
